@@ -132,6 +132,7 @@ func main() {
 	writeIfChanged(filepath.Join(*out, "Consts.lean"), genConsts())
 	writeIfChanged(filepath.Join(*out, "Funcs.lean"), genFuncs())
 	writeIfChanged(filepath.Join(*out, "Conds.lean"), genConds())
+	writeIfChanged(filepath.Join(*out, "Opts.lean"), genOpts())
 	facts := collectFacts()
 	writeIfChanged(filepath.Join(*out, "Facts.lean"), genFacts(facts))
 	if *factsJSON != "" {
@@ -382,6 +383,7 @@ type MethodFact struct {
 	Callees     []string `json:"callees"`
 	ReachWrite  bool     `json:"reach_write"` // some function reachable through static callee names writes through a receiver/config
 	ReachLock   bool     `json:"reach_lock"`
+	GetState    bool     `json:"get_state"` // calls getState(...) (which itself checks IsInit)
 }
 
 func collectFacts() []MethodFact {
@@ -503,6 +505,7 @@ func analyse(fd *ast.FuncDecl, mf *MethodFact) {
 			case "IsInit", "isInit", "IsZero", "isZero", "IsEmpty":
 				mf.InitGuard = true
 			case "getState":
+				mf.GetState = true
 				if len(v.Args) == 1 && selName(v.Args[0]) == "ronly" {
 					mf.RonlyGuard = true
 				}
@@ -555,15 +558,15 @@ func analyse(fd *ast.FuncDecl, mf *MethodFact) {
 func genFacts(fs []MethodFact) string {
 	var b strings.Builder
 	b.WriteString("/- GENERATED by /verif/extract from /repo — do not edit. -/\nnamespace Gen\n\n")
-	b.WriteString("structure MFact where\n  recv : String\n  name : String\n  exported : Bool\n  ptrRecv : Bool\n  initGuard : Bool\n  ronlyGuard : Bool\n  delegates : String\n  usesSetState : Bool\n  writes : Bool\n  locks : Bool\n  lockFirst : Bool\n  reachWrite : Bool\n  reachLock : Bool\n  deriving Repr\n\n")
+	b.WriteString("structure MFact where\n  recv : String\n  name : String\n  exported : Bool\n  ptrRecv : Bool\n  initGuard : Bool\n  ronlyGuard : Bool\n  delegates : String\n  usesSetState : Bool\n  writes : Bool\n  locks : Bool\n  lockFirst : Bool\n  reachWrite : Bool\n  reachLock : Bool\n  getState : Bool\n  deriving Repr\n\n")
 	b.WriteString("def facts : List MFact := [\n")
 	for i, f := range fs {
 		sep := ","
 		if i == len(fs)-1 {
 			sep = ""
 		}
-		fmt.Fprintf(&b, "  ⟨%q, %q, %v, %v, %v, %v, %q, %v, %v, %v, %v, %v, %v⟩%s\n", f.Recv, f.Name, f.Exported, f.PtrRecv,
-			f.InitGuard, f.RonlyGuard, f.Delegates, f.UsesSetState, f.Writes, f.Locks, f.LockFirst, f.ReachWrite, f.ReachLock, sep)
+		fmt.Fprintf(&b, "  ⟨%q, %q, %v, %v, %v, %v, %q, %v, %v, %v, %v, %v, %v, %v⟩%s\n", f.Recv, f.Name, f.Exported, f.PtrRecv,
+			f.InitGuard, f.RonlyGuard, f.Delegates, f.UsesSetState, f.Writes, f.Locks, f.LockFirst, f.ReachWrite, f.ReachLock, f.GetState, sep)
 	}
 	b.WriteString("]\n\nend Gen\n")
 	return b.String()
